@@ -34,6 +34,7 @@ type Env struct {
 	failed  int64
 	classes map[string]int
 	samples int
+	skipped int64
 	noSummary bool
 }
 
@@ -119,6 +120,16 @@ func (e *Env) fail(assert, class, detail string, c any) {
 	e.emit(map[string]any{"assert": assert, "class": class, "detail": detail, "case": c})
 }
 
+// tooManyFailures: once a few hundred cases have failed the verdict is known; the remaining cases are
+// skipped (hanging cases cost their whole patience each).  The summary line says so.
+func (e *Env) tooManyFailures() bool {
+	if atomic.LoadInt64(&e.failed) > 300 {
+		atomic.StoreInt64(&e.skipped, 1)
+		return true
+	}
+	return false
+}
+
 // ok counts one comparison that was really made, under a coverage class.
 func (e *Env) ok(class string) {
 	atomic.AddInt64(&e.checked, 1)
@@ -139,7 +150,7 @@ func (e *Env) sample(v any) {
 
 func (e *Env) close() {
 	if !e.noSummary {
-		e.emit(map[string]any{"summary": true, "checked": e.checked, "failed": e.failed, "classes": e.classes})
+		e.emit(map[string]any{"summary": true, "checked": e.checked, "failed": e.failed, "classes": e.classes, "aborted_after_failures": e.skipped})
 	}
 	e.w.Flush()
 	e.f.Close()
